@@ -233,14 +233,16 @@ void Model::route(int sender, const wire::Msg &m, int addressed) {
 
 // Connections whose rules match.  Broadcasts (no destination) must arrive exactly once; copies of
 // messages addressed to someone else go only to eavesdroppers, who may, but need not, get them.
-void Model::route_matches(int sender, const wire::Msg &m, int addressed, bool requested) {
+void Model::route_matches(int sender, const wire::Msg &m, int addressed, bool requested, bool policy_lenient) {
   for (size_t rc = 0; rc < conns.size(); rc++) {
     Conn &k = conns[rc];
     if (!k.alive || !k.hello || k.monitor || (int)rc == addressed) continue;
     bool eavesdropping = m.has_field(wire::F_DESTINATION);
     if (!rule_matches_any((int)rc, m, sender, addressed, eavesdropping)) continue;
-    if (sender >= 0 && can_send && !can_send(sender, m, (int)rc, addressed, requested)) continue;
-    if (can_receive && !can_receive(sender, m, (int)rc, addressed, requested)) continue;
+    if (!policy_lenient) {
+      if (sender >= 0 && can_send && !can_send(sender, m, (int)rc, addressed, requested)) continue;
+      if (can_receive && !can_receive(sender, m, (int)rc, addressed, requested)) continue;
+    }
     if (m.unix_fds() > 0 && !k.fdpass) continue;
     Exp e;
     e.from_bus = sender < 0;
@@ -763,8 +765,11 @@ void Model::process(int c, const wire::Msg &orig) {
       return;
     }
     if (m.type == wire::T_CALL) driver(c, m);
-    // other message types addressed to the bus are ignored; eavesdroppers may see any of them
-    route_matches(c, m, -1, false);
+    // other message types addressed to the bus are ignored; eavesdroppers may see any of them.
+    // For a request that itself changes who owns what, ownership-based rules are evaluated on a
+    // state the documents do not pin down (before or after the change): copies neither required nor forbidden.
+    bool changes_ownership = m.type == wire::T_CALL && (m.member() == "RequestName" || m.member() == "ReleaseName" || m.member() == "Hello" || m.member() == "BecomeMonitor");
+    route_matches(c, m, -1, false, changes_ownership && (bool)can_send);
     return;
   }
   if (!m.has_field(wire::F_DESTINATION)) {
